@@ -204,8 +204,9 @@ func abstractIdent(id string, names []named, classes map[string]bool) string {
 }
 
 var (
-	identRe = regexp.MustCompile(`[A-Za-z_][A-Za-z0-9_]*`)
-	numRe   = regexp.MustCompile(`\b\d+\b`)
+	wrapperRe = regexp.MustCompile(`\b(ArrayOf|MapOf)[A-Za-z0-9]+\b`)
+	identRe   = regexp.MustCompile(`[A-Za-z_][A-Za-z0-9_]*`)
+	numRe     = regexp.MustCompile(`\b\d+\b`)
 )
 
 // compilerWords are the words of the Go compiler's own messages.
@@ -217,7 +218,7 @@ func init() {
 		found syntax unexpected too many few arguments call have want with pointer interface map key duplicate case label defined other declaration float32 float64
 		int32 int64 uint uint32 uint64 byte any convert non name on left side new variables is a an the for receiver composite literal unknown already during selector
 		ambiguous initialization cycle refers multiple context assign index slice range over mismatch values but returns indirect operator literal not impossible
-		assertion compare comparison by possibly it must be never shadowed true false len cap make append`) {
+		assertion compare comparison by possibly it must be never shadowed true false len cap make append WRAPPER built`) {
 		compilerWords[w] = true
 	}
 }
@@ -234,6 +235,9 @@ func keyDiag(s *spec.Spec, diag string) string {
 	}
 	names := designNames(s)
 	classes := map[string]bool{}
+	// the wrapper messages goa declares for nested collections are named after their element types
+	// (ArrayOfMapOfSint64Double): one class, whatever the element types
+	msg = wrapperRe.ReplaceAllString(msg, "WRAPPER")
 	msg = numRe.ReplaceAllString(msg, "N")
 	msg = identRe.ReplaceAllStringFunc(msg, func(id string) string {
 		if id == "N" || compilerWords[id] {
